@@ -138,6 +138,7 @@ pub fn tcp_parts(
                 tk.push(("os-name", os.name.clone()));
             }
             tk.push(("signature", shown("tcp-signature", &s.sig.matching)));
+            let _ = shown("tcp-observable", &s.sig);
             render_check("tcp-syn", &shown("tcp-syn", s), &tk);
         }
         if let Some(s) = syn_ack {
@@ -146,6 +147,7 @@ pub fn tcp_parts(
                 tk.push(("os-name", os.name.clone()));
             }
             tk.push(("signature", shown("tcp-signature", &s.sig.matching)));
+            let _ = shown("tcp-observable", &s.sig);
             render_check("tcp-syn-ack", &shown("tcp-syn-ack", s), &tk);
         }
         if let Some(m) = mtu {
